@@ -40,6 +40,16 @@ CLAIMED["C01"] = dict(
     technique="contract-based deductive verification: exceptional postconditions by symbolic execution of the real AST under EXC-ANY, z3",
     design="DESIGN.md §3 C01")
 
+CLAIMED["C09"] = dict(
+    text="_safe_join is proved (string VCs, os.path functions uninterpreted) to return only paths inside its base or raise; every "
+         "file-system call reached when re-reading extracted 7z members carries a discharged confinement obligation for arbitrary member "
+         "names; the skip predicate equals its spec; policy obligations from the AST: file-system calls only at allow-listed sites, ZIP/TAR "
+         "loops have no file-system effect, only regular tar members are read, skip rules dominate every dispatch, the temp dir is a with-block.",
+    note="Assumed: a normalised absolute path under abspath(base)+sep is inside base (no symlinks created by the reader); OS-level races; what "
+         "third-party extractors do with member bytes; policy obligations are decided by AST dataflow (back end 'dataflow'), not SMT.",
+    technique="contract-based deductive verification: string VCs over the real AST + file-system effect obligations, z3; AST dominance analysis",
+    design="DESIGN.md §3 C09")
+
 PENDING = {}
 
 ALL = [f"C{i:02d}" for i in range(1, 21)]
